@@ -13,7 +13,7 @@ func init() {
 		ID:  "C15",
 		Run: runC15,
 		Explanation: "Static analysis of who can touch which books: (R1) every KV/transient store opened by Haqq code is opened with a key that is a field of a keeper, and that field is wired in NewHaqq to the store key of the keeper's own module — foreign stores are opened only at tabled sites (the burn redirection into the distribution fee pool, which C14 pairs with the coin move; store migrations; one upgrade handler; the zero-height export); " +
-			"(R2) every MintCoins/BurnCoins call site in Haqq code names a constant module account and belongs to the confirmed minting sites of that account; nobody opens the bank store; (R3) the module manager's invariants are registered with the crisis keeper and crisis runs first in EndBlock. That the registered invariants actually hold after every block is run-time behaviour and is not decided.",
+			"(R2) every MintCoins/BurnCoins call site in Haqq code names a constant module account and belongs to the confirmed minting sites of that account; nobody opens the bank store; (R3) the module manager's invariants are registered with the crisis keeper and crisis runs first in EndBlock; (R4 = C14's rule R2, same code) the burn redirection writes the fee-pool record together with the coin move into the distribution account, so the distribution module's can-withdraw/module-account invariant cannot see a pool that runs ahead of or behind the account; (R5 = C02's rule R3, same code) the only Haqq path that mints and burns without a message — the EVM balance write-back — mints/burns exactly the delta to the bank balance, pairs it with the matching send, writes every journal-dirty account and journals nothing for a zero amount. That the registered invariants actually hold after every block is run-time behaviour and is not decided.",
 		Assumptions: []string{"cosmos-sdk bank/staking/distribution/gov keep their own invariants when used through their keeper APIs"},
 		Declined:    []string{"truth of the registered invariants after every block (sum of balances = supply, pools match records, ...)"},
 	})
@@ -257,4 +257,8 @@ func runC15(r *Run) {
 		}
 	})
 	r.Check(okFirst, "R3", "app.NewHaqq#crisis-first-in-endblock", P.Pos(fnPos(nh)), "crisis is the first EndBlocker", "the crisis module is not the first module of SetOrderEndBlockers (invariants would be checked before other modules' end-block changes … or not against the block's final state as designed)")
+
+	// sibling clauses decided by the same rule code as C14 and C02
+	r.Import("R4/C14.", []string{"R2"}, runC14)
+	r.Import("R5/C02.", []string{"R3"}, runC02)
 }
